@@ -48,18 +48,40 @@ def run_unit(u, desc, tier, seed):
         return
     s = var('s')
     tmo = 20.0 if tier == 'quick' else 120.0
+    from fractions import Fraction
+    from vengine.field import Field
+    from vengine.explore import Ctx
+    from vengine import smt as _smt
+    import z3 as _z3
+    _smt.INPROC = True
     for el in desc['els']:
+        ctx = Ctx(Field(['dummy'], naux=0))
+        zs = _z3.Real('s')
+        ctx.pre = [zs >= 0, zs <= 2]
+
+        def body():
+            with patched(structure):
+                return structure.FormFactor(el, s)
+        leaves, exh = ctx.explore(body, max_paths=64)
+        for leaf in leaves:
+            run_leaf(u, desc, tier, structure, atomlib, el, s, leaf, tmo)
+
+
+def run_leaf(u, desc, tier, structure, atomlib, el, s, leaf, tmo):
         u.paths += 1
-        with patched(structure):
-            f = structure.FormFactor(el, s)
-            f0c = structure.FormFactor(el, 0)
+        pcs = [c.sexpr() for c in leaf['pc']]
+        ptag = '' if not leaf['pc'] else '/p' + ''.join('T' if d else 'F' for d in leaf['trace'])
+        if leaf['exception'] is not None:
+            u.add('C16/%s/exception%s' % (el, ptag), 'violated', 'FormFactor raised %r' % (leaf['exception'],), replay={'kind': 'positive', 'el': el, 's': 0.0})
+            return
+        f = leaf['result']
         data = atomlib.formfactor[el]
         if not isinstance(f, T):
             u.add('C16/%s/symbolic' % el, 'error', 'FormFactor did not produce a symbolic term: %r' % (f,))
-            continue
+            return
         # translator validation: symbolic tree vs real function at a few points
         good = True
-        for sv in (0.0, 0.25, 0.8, 1.7):
+        for sv in ((0.0, 0.25, 0.8, 1.7) if not leaf['pc'] else ()):
             real = structure.FormFactor(el, sv)
             if abs(float(f.ev({'s': sv})) - real) > 1e-9 * max(1, abs(real)):
                 good = False
@@ -72,8 +94,35 @@ def run_unit(u, desc, tier, seed):
             oracle = oracle + Fraction(repr(float(data[i]))) * (-(Fraction(repr(float(data[i + 4]))) * s * s)).exp()
         Zel = Z_of(el)
 
-        def query(key, assertions, detail, replay_fn, pin=None):
+        def query(key, assertions, detail, replay_fn, pin=None, interval=None):
+            key = key + ptag
+            assertions = pcs + assertions
             st, vals = tterm.run_cvc5_text(['s'], assertions, timeout_s=tmo)
+            if st == 'unknown' and interval is not None:
+                # refinement: cvc5 cannot certify a model involving exp.  Split the interval; pieces it refutes are done, on the
+                # remaining pieces the real function is evaluated and a concrete violating s is reported if one exists
+                lo, hi, goalfmt = interval
+                N = 32
+                open_pieces = []
+                for kk in range(N):
+                    a_, b_ = lo + (hi - lo) * kk / N, lo + (hi - lo) * (kk + 1) / N
+                    st2, _ = tterm.run_cvc5_text(['s'], pcs + ['(>= s %s)' % T('const', Fraction(a_).limit_denominator(10 ** 6)).smt(), '(<= s %s)' % T('const', Fraction(b_).limit_denominator(10 ** 6)).smt(), goalfmt], timeout_s=max(3.0, tmo / 8))
+                    if st2 != 'unsat':
+                        open_pieces.append((a_, b_))
+                for a_, b_ in open_pieces:
+                    for jj in range(9):
+                        sv = a_ + (b_ - a_) * jj / 8
+                        if sv <= 0 and 'decreasing' in key:
+                            continue
+                        ok, rec, text = replay_fn(sv)
+                        if ok:
+                            u.add(key, 'violated', detail + ' :: ' + text, witness={'s': sv, 'element': el}, replay=rec)
+                            return
+                if not open_pieces:
+                    u.add(key, 'discharged', detail + ' [by interval refinement: all %d sub-intervals refuted]' % N, info={'solver': 'cvc5'})
+                    return
+                u.add(key, 'inconclusive', detail + ' [cvc5 unknown on %d of %d sub-intervals, no concrete violation found there]' % (len(open_pieces), N))
+                return
             if st == 'unsat':
                 u.add(key, 'discharged', detail, info={'solver': 'cvc5'})
                 if len(u.samples) < 2:
@@ -106,10 +155,12 @@ def run_unit(u, desc, tier, seed):
             query('C16/%s/f0' % el, ['(= s 0.0)', '(or (> (- %s %d.0) 0.1) (< (- %s %d.0) (- 0.1)))' % (f.smt(), Zel, f.smt(), Zel)],
                   '|f(0) - Z| <= 0.1 (Z=%d)' % Zel, lambda sv: num_f0(el, Zel), pin=pin)
         # (c) positivity on [0,2]
-        query('C16/%s/positive' % el, ['(>= s 0.0)', '(<= s 2.0)', '(<= %s 0.0)' % f.smt()], 'f(s) > 0 on [0,2]', lambda sv: num_pos(el, sv))
+        query('C16/%s/positive' % el, ['(>= s 0.0)', '(<= s 2.0)', '(<= %s 0.0)' % f.smt()], 'f(s) > 0 on [0,2]', lambda sv: num_pos(el, sv),
+              interval=(0.0, 2.0, '(<= %s 0.0)' % f.smt()))
         # (d) strictly decreasing on (0,2]
         df = f.d('s')
-        query('C16/%s/decreasing' % el, ['(> s 0.0)', '(<= s 2.0)', '(>= %s 0.0)' % df.smt()], 'df/ds < 0 on (0,2]', lambda sv: num_dec(el, sv))
+        query('C16/%s/decreasing' % el, ['(> s 0.0)', '(<= s 2.0)', '(>= %s 0.0)' % df.smt()], 'df/ds < 0 on (0,2]', lambda sv: num_dec(el, sv),
+              interval=(0.0, 2.0, '(>= %s 0.0)' % df.smt()))
 
 
 _KNOWN = None
